@@ -234,6 +234,39 @@ func Run(c *vk.Ctx) {
 		}
 	}
 	diffBase = false
+	// two functions of one name (overloads, template instantiations, same-named statics): kinds a1, a at
+	// another start line (another function record, same name, system name and file) and b; the start line
+	// is part of an entry's identity only where the format says so (callgrind)
+	{
+		sg := []enum.Kind{sigma[0], {Line: ap.Line{Func: "a", Sys: "a_sys", File: "f1.go", Start: 7, Line: 8}, Map: 0, Tag: "a@7"}, sigma[2]}
+		shs := enum.Shapes(sg, 2)
+		for i := range shs {
+			uses := false
+			for _, loc := range shs[i] {
+				for _, k := range loc {
+					uses = uses || k == 1
+				}
+			}
+			if !uses {
+				continue
+			}
+			if c.Mine(idx) {
+				checkProfile(c, sg, shs[i], nil, -1, cfgs)
+				c.Count("family/same-name-other-start-line", 1)
+			}
+			idx++
+			for j := range shs {
+				if depthOf(shs[i])+depthOf(shs[j]) > 3 {
+					continue
+				}
+				if c.Mine(idx) {
+					checkProfile(c, sg, shs[i], shs[j], 0, cfgs)
+					c.Count("family/same-name-other-start-line", 1)
+				}
+				idx++
+			}
+		}
+	}
 	// deep recursion: every plain stack of 4 and 5 frames over a1 and b (the same adjacency, or the same
 	// entry, several times in one sample: counted once per sample)
 	for d := 4; d <= 5; d++ {
